@@ -136,6 +136,33 @@ func (c *vXferConfig) opts() *xferOpts {
 	return o
 }
 
+// vPriorContent is an older version of a file with content b, as a destination may hold it before
+// the transfer: longer, a prefix, unrelated, the same with a tail, a common prefix followed by
+// something else (the resume exchange then matches some steps and not the next), or identical.
+func vPriorContent(tp *verifsim.Tape, b []byte) []byte {
+	switch tp.Pick("prior.kind", 1, 1, 1, 1, 3, 1) {
+	case 0:
+		return append(append([]byte{}, b...), []byte("stale tail of a longer old file")...)
+	case 1:
+		return append([]byte{}, b[:len(b)/2]...)
+	case 2:
+		return []byte("completely different old content")
+	case 3:
+		return append(append([]byte{}, b...), tp.Bytes("prior.tail", 1+tp.Draw("prior.len", 5000))...)
+	case 4:
+		cut := 0
+		if len(b) > 0 {
+			cut = tp.Draw("prior.cut", len(b))
+		}
+		tail := tp.Bytes("prior.difftail", 1+tp.Draw("prior.difflen", 9000))
+		if cut < len(b) && len(tail) > 0 && tail[0] == b[cut] {
+			tail[0] ^= 0x55
+		}
+		return append(append([]byte{}, b[:cut]...), tail...)
+	}
+	return append([]byte{}, b...)
+}
+
 // vC01ManyFiles: more files in one transfer than the process may hold open at once, in per-file
 // mode (no archive): descriptors in use must not grow with the file count.
 func vC01ManyFiles(rc *runCtx) {
@@ -241,17 +268,7 @@ func vScenarioC01(rc *runCtx) {
 				continue
 			}
 			b, _ := os.ReadFile(p)
-			var old []byte
-			switch tp.Draw("c01.priorkind", 4) {
-			case 0:
-				old = append(append([]byte{}, b...), []byte("stale tail of a longer old file")...)
-			case 1:
-				old = append([]byte{}, b[:len(b)/2]...)
-			case 2:
-				old = []byte("completely different old content")
-			default:
-				old = append(append([]byte{}, b...), tp.Bytes("c01.priortail", 1+tp.Draw("c01.priorlen", 5000))...)
-			}
+			old := vPriorContent(tp, b)
 			vTryWrite(filepath.Join(dst, filepath.Base(p)), old)
 		}
 		rc.res.Scenario["prior_destination"] = true
@@ -376,13 +393,21 @@ func vCheckFidelity(rc *runCtx, x *xferWorld, rep *xferReport, before vSnap, req
 	if !rep.clientOK {
 		names = rep.serverNames
 	}
-	if len(names) != len(o.srcPaths) {
+	partial := !requireSuccess && !(rep.clientOK && rep.serverOK) && len(names) < len(o.srcPaths)
+	if partial {
+		// under faults one side may end early with fewer files than were asked for while the other side ends
+		// with an error (a damaged #NUM line): the statement is per reported file, so those are checked
+		rc.w.Probe("partial-success-one-side")
+	} else if len(names) != len(o.srcPaths) {
 		rc.violate("names", "C01:name-count", "%d sources but %d names reported: %q", len(o.srcPaths), len(names), names)
 		return
 	}
 	after := vSnapshot(o.dstDir)
 	seen := map[string]bool{}
 	for i, sp := range o.srcPaths {
+		if i >= len(names) {
+			break
+		}
 		base := filepath.Base(sp)
 		n := names[i]
 		if n != base && !(strings.HasPrefix(n, base+".") && vAllDigits(n[len(base)+1:])) {
@@ -401,7 +426,7 @@ func vCheckFidelity(rc *runCtx, x *xferWorld, rep *xferReport, before vSnap, req
 	}
 	// nothing else appeared at top level, and nothing that existed before vanished
 	for _, k := range vTopLevel(after) {
-		if _, was := before[k]; !was && !seen[k] {
+		if _, was := before[k]; !was && !seen[k] && !partial {
 			rc.violate("extra", "C01:extra", "unexpected new entry %q in destination (reported %q)", k, names)
 			return
 		}
